@@ -143,6 +143,11 @@ class AioRunner:
                 kw["skip_missing"] = True
             if o.get("max_att", 0) != 0:
                 kw["max_attempts"] = o["max_att"]
+        if o.get("badrepr"):
+            from .impl_thr import BadRepr
+            kw["kwargs"] = dict(kw.get("kwargs") or {}, conn=BadRepr())
+            if "want" in cell:
+                cell["want"] = (cell["want"][0], dict(cell["want"][1], conn=kw["kwargs"]["conn"]))
         with warnings.catch_warnings():
             warnings.simplefilter("ignore")
             job = getattr(self.sched, call)(timing, cb, **kw)
